@@ -53,7 +53,7 @@ func vfRefOf(raw string) string {
 func (c *vfRefClient) addResources(raw json.RawMessage) {
 	var rs struct {
 		Models      map[string]map[string]json.RawMessage `json:"models"`
-		Collections map[string][]json.RawMessage         `json:"collections"`
+		Collections map[string][]json.RawMessage          `json:"collections"`
 		Errors      map[string]json.RawMessage            `json:"errors"`
 	}
 	if len(raw) == 0 {
